@@ -16,8 +16,8 @@ def cfg(tier):
     if tier == 'quick':
         return {'plan_a': [(2, ('plain', 'rainbow'), 'RW', 2, False), (2, ('plain',), 'R', 1, True), (3, ('plain',), 'R', 2, False)],
                 'plan_b': [(2, ('plain',), 'RW', 1, False)]}
-    return {'plan_a': [(2, ('plain', 'rainbow'), 'RBW', 2, True), (3, ('plain', 'rainbow'), 'RW', 2, True)],
-            'plan_b': [(2, ('plain', 'rainbow'), 'RW', 2, False)]}
+    return {'plan_a': [(2, ('plain', 'rainbow'), 'RBW', 2, False), (2, ('plain',), 'RW', 2, True), (3, ('plain', 'rainbow'), 'RW', 2, False)],
+            'plan_b': [(2, ('plain',), 'RW', 2, False)]}
 
 
 def pool(plan, seed, off=0):
